@@ -1,4 +1,6 @@
+pub mod broad;
 pub mod build;
+pub mod mk;
 pub mod gen;
 pub mod model;
 pub mod outcome;
